@@ -25,8 +25,10 @@ VARIABLES l,        \* next event
           scn,      \* id of the current scenario
           reported, \* invariants already reported in the current scenario
           cnt,      \* counters
-          cov       \* program counter -> number of matched calls (vacuity control)
-tvars == <<l, bad, skip, scn, reported, cnt, cov>>
+          cov,      \* program counter -> number of matched calls (vacuity control)
+          fin,      \* version -> content hash id last recorded at its final manifest path (from the snapshots)
+          hbad      \* recorded-hash failures: judged on the gate's snapshots alone, also while `skip`
+tvars == <<l, bad, skip, scn, reported, cnt, cov, fin, hbad>>
 allvars == <<vars, tvars>>
 
 BigBudget == [fail |-> 1000, lost |-> 1000, crash |-> 1000]
@@ -254,12 +256,32 @@ DoFinal(e) ==
             /\ reported' = reported \cup NewViol /\ UNCHANGED <<skip, scn>> /\ cnt' = Inc(cnt, "finals")
   ELSE Mismatch(e, <<"final", e.open, ac[9].res>>, ToString(<<e.latest, e.versions>>))
 
+\* C02, model independent: the content hash recorded at a final manifest path never changes and never
+\* disappears (no cleanup runs here); exempt: the unsafe handler.  Evaluated on every snapshot, also after a
+\* nonconformance made the validator skip the rest of the scenario.
+FinalsOf(vs) == LET F == {x \in ToSet(vs) : x[1] = "final"} IN
+                [v \in {x[2] : x \in F} |-> (CHOOSE x \in F : x[2] = v)[4]]
+FinTrack(e) ==
+  IF e.ev = "reset" THEN fin' = FinalsOf(e.vs) /\ hbad' = hbad
+  ELSE IF e.ev \in {"call", "final"}
+  THEN LET cur == FinalsOf(e.vs)
+           chg == {v \in DOMAIN fin : v \notin DOMAIN cur \/ cur[v] # fin[v]} IN
+       /\ fin' = cur @@ fin
+       /\ hbad' = IF chg # {} /\ cfg.handler # "unsafe" /\ Len(hbad) < 100
+                  THEN Append(hbad, [pos |-> l, scn |-> scn, versions |-> chg,
+                                     op |-> IF e.ev = "call" THEN e.op ELSE "final",
+                                     a |-> IF e.ev = "call" THEN e.a ELSE 9])
+                  ELSE hbad
+  ELSE UNCHANGED <<fin, hbad>>
+
 TInit == /\ InitWith(MCcfg) /\ budget = BigBudget
          /\ l = 1 /\ bad = <<>> /\ skip = TRUE /\ scn = -1 /\ reported = {} /\ cnt = Cnt0 /\ cov = <<>>
+         /\ fin = <<>> /\ hbad = <<>>
 
 TNext ==
   /\ l <= N
   /\ l' = l + 1
+  /\ FinTrack(Rec[l])
   /\ LET e == Rec[l] IN
      IF e.ev = "reset" THEN ResetTo(e)
      ELSE IF skip THEN Stutter("skipped")
@@ -280,6 +302,6 @@ TNext ==
 TraceSpec == TInit /\ [][TNext]_allvars
 
 Report == (l = N + 1) =>
-            PrintT(<<"REPORT", ToJson([events |-> N, bad |-> bad, counts |-> cnt, cov |-> cov])>>)
+            PrintT(<<"REPORT", ToJson([events |-> N, bad |-> bad, counts |-> cnt, cov |-> cov, hbad |-> hbad])>>)
 TraceAccepted == TLCGet("stats").diameter = N + 1
 =============================================================================
